@@ -178,7 +178,7 @@ def main():
         # ---- sessions on one instance (GeneratorSession.tla): the result of generate_data is a function of (seed, arguments) only
         wds = E.workdir('c19s')
         try:
-            SC_ = {'Seeds': '{1, 2}', 'ArgSets': '{"A", "B"}', 'MaxSteps': 4 if tier == 'quick' else 5}
+            SC_ = {'Seeds': '{1, 2}', 'ArgSets': '{"A", "B", "C", "D"}', 'MaxSteps': 4 if tier == 'quick' else 5}
             cfgd = E.write_cfg(os.path.join(wds, 'dev.cfg'), constants=dict(SC_, ReseedOnlyOnChange='TRUE'), invariants=['SameSeedSameData', 'FreshStart'])
             rd = E.run_tlc('GeneratorSession', cfgd, timeout=300)
             E.require_ok(rd, 'GeneratorSession/deviation')
@@ -199,7 +199,10 @@ def main():
         if not sessions:
             raise E.MachineryError('no sessions emitted')
         argsets = {'A': {'n_features': 5, 'n_samples': 30, 'cardinality': 4, 'structure': [[1, 7], [[2, 3], [11, 12, 13]]], 'ensure_rep': True},
-                   'B': {'n_features': 4, 'n_samples': 25, 'cardinality': 6, 'structure': [[0, [5, 6, 9]], [2, [[1, 2], [0.3, 0.7]]]], 'ensure_rep': False}}
+                   'B': {'n_features': 4, 'n_samples': 25, 'cardinality': 6, 'structure': [[0, [5, 6, 9]], [2, [[1, 2], [0.3, 0.7]]]], 'ensure_rep': False},
+                   # random value domains over two intervals of the same width
+                   'C': {'n_features': 3, 'n_samples': 30, 'cardinality': 5, 'random_values': True, 'low': 0, 'high': 200, 'ensure_rep': True},
+                   'D': {'n_features': 3, 'n_samples': 30, 'cardinality': 5, 'random_values': True, 'low': 1000, 'high': 1200, 'ensure_rep': True, 'structure': [[1, 4]]}}
         seeds = {'1': 42 + seed, '2': 7}
         jobs_s = [{'op': 'gen_session', 'argsets': argsets, 'seeds': seeds, 'sessions': sessions[i:i + 150]} for i in range(0, len(sessions), 150)]
         got_s = PC.pipe_eval(jobs_s, modules=['gen_ops'])
